@@ -541,4 +541,36 @@ def check(ctx: Ctx) -> list[RuleResult]:
         else:
             r7.ok({"loader": f.short, "role_walks_abandoned": 0})
     out.append(r7)
+
+    # ---- R8 ---------------------------------------------------------------------------
+    # (i) every answer set_parent() gives has been through the parent-change check: a return that precedes _get_parent() ("already
+    # bound, nothing to do") lets a second controller claim a device without SystemSchemaInconsistent being raised;
+    # (ii) a zone handles its first message only once it is part of the system: the factory builds it, the system registers it, then
+    # it is given the message. A factory that feeds the message to the zone first can leave - when that message is half refused - a
+    # zone that owns devices but is in neither the system's zone list nor its schema
+    r8 = RuleResult("R8", "no short cut past the parent-change check; zones are registered before they handle traffic", "every return of Child.set_parent is dominated by _get_parent(); zone factories do not dispatch messages", min_instances=2)
+    cfg8 = ctx.plain_cfg(sp)
+    gp8 = [x for x in cfg8.nodes if x.ast is not None and x.kind == "stmt" and any(isinstance(c, ast.Call) and isinstance(c.func, ast.Attribute) and c.func.attr == "_get_parent" for c in ast.walk(x.ast))]
+    if not gp8:
+        raise AnalysisError("Child.set_parent: the _get_parent() call was not found")
+    dom8 = cfg8.dominators()
+    for rn in [x for x in cfg8.nodes if x.kind == "stmt" and isinstance(x.ast, ast.Return)]:
+        r8.instances += 1
+        r8.nontrivial += 1
+        if any(g8.id in dom8[rn.id] for g8 in gp8):
+            r8.ok({"return": norm(rn.ast)[:40], "after": "_get_parent()"})
+        else:
+            r8.fail(f"{sp.short}:return-before-parent-check", sp.loc(rn.ast), f"`{norm(rn.ast)[:50]}` answers set_parent() before _get_parent() has compared the requested parent with the current one: a device already bound under one controller can be claimed by another (same domain id) without the inconsistency being reported, and both systems then list it")
+    facs = [g for g in repo.funcs.values() if g.module.name.startswith("ramses_rf.system") and g.name.endswith("_factory") and g.parent is None]
+    if not facs:
+        raise AnalysisError("no zone/system factory found")
+    for g in facs:
+        r8.instances += 1
+        r8.nontrivial += 1
+        hm8 = [c for c in own_nodes(g.node) if isinstance(c, ast.Call) and isinstance(c.func, ast.Attribute) and c.func.attr in ("_handle_msg", "handle_msg")]
+        if hm8:
+            r8.fail(f"{g.short}:factory-dispatches-message", g.loc(hm8[0]), f"{g.short} hands a message to the entity it has just built (`{norm(hm8[0])[:50]}`), before its caller has registered the entity: if that message is refused part-way (a device already bound elsewhere) the half-initialised zone keeps the devices it accepted but is in neither the system's zone list nor the schema, and every later packet for that index is refused")
+        else:
+            r8.ok({"factory": g.short, "dispatches_messages": False})
+    out.append(r8)
     return out
